@@ -1010,13 +1010,29 @@ theorem newtype_ignores_its_declaration (env : Env.T) (run conv : String → Ele
   simp only [hd]
 
 /-- in particular, for a newtype the conclusion of `runOuter_other_inert` has no reason to hold:
-    the result is whatever the inner receiver (`run inner`) makes of the element, e.g. of an
-    attribute listed by the inner type only -/
-example (env : Env.T) (run conv : String → Elem → Outcome Val) (r : ROuter) (f : RField) (inner : String)
-    (hd : r.base.data = .struct .tuple [f]) (hty : f.ty = .recv inner) (el : Elem) :
-    Env.runOuter env run conv r el = (run inner el).map (fun v => .record r.base.ident [("0", v)]) := by
+    once the receiver's own `supports(..)` verdict (a function of the element's body shape only,
+    `FromDeriveInput` only) has passed, the result is whatever the inner receiver (`run inner`)
+    makes of the element, e.g. of an attribute listed by the inner type only -/
+theorem newtype_delegates (env : Env.T) (run conv : String → Elem → Outcome Val) (r : ROuter) (f : RField)
+    (inner : String) (hd : r.base.data = .struct .tuple [f]) (hty : f.ty = .recv inner) (el : Elem) :
+    Env.runOuter env run conv r el =
+      (match (match r.trait_, el, r.supports with
+          | .fromDeriveInput, .deriveInput d, some diss => diss.validateBody d.body.shape
+          | _, _, _ => (.ok () : Outcome Unit)) with
+       | .err e => .err e
+       | .panic m => .panic m
+       | .ok () => (run inner el).map (fun v => .record r.base.ident [("0", v)])) := by
   unfold Env.runOuter
   simp only [hd, hty]
+  cases r.trait_ <;> cases el <;> cases r.supports <;> rfl
+
+/-- without a `supports(..)` declaration the delegation is unconditional -/
+theorem newtype_delegates_of_no_supports (env : Env.T) (run conv : String → Elem → Outcome Val) (r : ROuter)
+    (f : RField) (inner : String) (hd : r.base.data = .struct .tuple [f]) (hty : f.ty = .recv inner)
+    (hs : r.supports = none) (el : Elem) :
+    Env.runOuter env run conv r el = (run inner el).map (fun v => .record r.base.ident [("0", v)]) := by
+  rw [newtype_delegates env run conv r f inner hd hty el, hs]
+  cases r.trait_ <;> cases el <;> rfl
 
 /-! ## 6. Non-vacuity: every hypothesis of every main theorem is met by concrete data -/
 
